@@ -45,12 +45,12 @@ Print Assumptions partial_genuine_partial.
 (* link with the state machine: on every exit of the poll loop the copied list is a subset of the
    complete search's blocks, hence the reported dictionary is sound *)
 Theorem timeout_result_sound :
-  forall off clk step T ws D,
+  forall rule off clk step T ws D,
     let all := concat (flat_map all_blocks ws) in
     key_inj off all -> post off all = Some D ->
-    exists d, post off (concat (shared (run_parallel clk step T ws))) = Some d /\ forall e, In e d -> In e D.
+    exists d, post off (concat (shared (run_parallel rule clk step T ws))) = Some d /\ forall e, In e d -> In e D.
 Proof.
-  intros off clk step T ws D all KI HD. apply partial_sound_lemma with (all := all); auto.
+  intros rule off clk step T ws D all KI HD. apply partial_sound_lemma with (all := all); auto.
   apply concat_incl, shared_incl.
 Qed.
 Print Assumptions timeout_result_sound.
@@ -58,15 +58,15 @@ Print Assumptions timeout_result_sound.
 (* ---------------------------------------------------------------- (b) the poll loop *)
 
 Theorem loop_terminates :
-  forall clk step T ws, ClockOK clk step -> how (poll (fuel_for T step) clk T ws 1) <> OutOfFuel.
+  forall rule clk step T ws, ClockOK clk step -> how (poll rule (fuel_for T step) clk T ws 1) <> OutOfFuel.
 Proof. exact poll_terminates. Qed.
 Print Assumptions loop_terminates.
 
 (* timeout -1 (workers that terminate), or some poll within the deadline finds every worker
    dead: complete list, nobody killed, no flag *)
 Theorem complete_when_untimed :
-  forall clk step T ws,
-    let o := run_parallel clk step T ws in
+  forall rule clk step T ws,
+    let o := run_parallel rule clk step T ws in
     (T = -1 -> forallb terminates ws = true ->
        how o = ExitUntimed /\ timed_out o = false /\ shared o = flat_map all_blocks ws /\ killed o = all_false ws) /\
     (T <> -1 -> ClockOK clk step -> (exists i, AllDoneAt clk T ws i) ->
@@ -77,12 +77,12 @@ Print Assumptions complete_when_untimed.
 (* "the search finishes in time" with a margin of one poll interval (dmax = longest distance of
    two clock readings) and a first test inside the deadline *)
 Theorem complete_when_in_time_partial :
-  forall clk step dmax T ws,
+  forall rule clk step dmax T ws,
     ClockOK clk step -> T <> -1 ->
     (forall i, clk (S i) <= clk i + dmax) ->
     clk 1%nat - clk 0%nat <= T ->
     (forall w, In w ws -> exists f, w_fin w = Some f /\ f + dmax <= clk 0%nat + T) ->
-    let o := run_parallel clk step T ws in
+    let o := run_parallel rule clk step T ws in
     timed_out o = false /\ shared o = flat_map all_blocks ws /\ killed o = all_false ws.
 Proof. exact in_time_lemma. Qed.
 Print Assumptions complete_when_in_time_partial.
@@ -91,7 +91,7 @@ Print Assumptions complete_when_in_time_partial.
    not -1 and every poll inside the deadline saw a live worker *)
 Theorem flag_iff_loop_exhausted :
   forall clk step T ws, ClockOK clk step ->
-    let o := run_parallel clk step T ws in
+    let o := run_parallel FlagOnExhaustion clk step T ws in
     (timed_out o = true <-> how o = ExitDeadline) /\
     (timed_out o = true <->
        T <> -1 /\ forall i, (1 <= i)%nat -> (forall j, (1 <= j <= i)%nat -> clk j - clk 0%nat <= T) ->
@@ -101,8 +101,8 @@ Print Assumptions flag_iff_loop_exhausted.
 
 (* every worker is joined on every path; it was killed or it has terminated by itself *)
 Theorem killed_or_joined :
-  forall clk step T ws,
-    let o := run_parallel clk step T ws in
+  forall rule clk step T ws,
+    let o := run_parallel rule clk step T ws in
     how o <> Hangs -> how o <> OutOfFuel ->
     joined o = all_true ws /\
     forall n w, nth_error ws n = Some w ->
@@ -112,9 +112,9 @@ Print Assumptions killed_or_joined.
 
 (* the parallel branch returns within timeout + one poll interval *)
 Theorem parallel_time_bounded :
-  forall clk step dmax T ws,
+  forall rule clk step dmax T ws,
     ClockOK clk step -> 0 <= T -> (forall i, clk (S i) <= clk i + dmax) ->
-    clk (exit_poll (run_parallel clk step T ws)) - clk 0%nat <= T + dmax.
+    clk (exit_poll (run_parallel rule clk step T ws)) - clk 0%nat <= T + dmax.
 Proof. exact time_bounded_lemma. Qed.
 Print Assumptions parallel_time_bounded.
 
@@ -129,7 +129,7 @@ Definition done_worker : worker := mkworker [(-500, [[(1, 2); (1001, 3)]])] (Som
 Theorem flag_without_cut_refuted :
   exists clk step T ws,
     ClockOK clk step /\ T = 0 /\ (forall w, In w ws -> alive w (clk 0%nat) = false) /\
-    let o := run_parallel clk step T ws in
+    let o := run_parallel FlagOnExhaustion clk step T ws in
     timed_out o = true /\ killed o = all_false ws /\ shared o = flat_map all_blocks ws.
 Proof.
   exists clk_us, 200000, 0, [done_worker]. split.
@@ -144,7 +144,7 @@ Print Assumptions flag_without_cut_refuted.
 (* in fact timeout 0 sets the flag on every run whose clock advances between two readings *)
 Theorem timeout_zero_always_flags :
   forall clk step ws, clk 0%nat < clk 1%nat ->
-    timed_out (run_parallel clk step 0 ws) = true /\ how (run_parallel clk step 0 ws) = ExitDeadline.
+    timed_out (run_parallel FlagOnExhaustion clk step 0 ws) = true /\ how (run_parallel FlagOnExhaustion clk step 0 ws) = ExitDeadline.
 Proof. exact timeout_zero_lemma. Qed.
 Print Assumptions timeout_zero_always_flags.
 
@@ -153,7 +153,7 @@ Print Assumptions timeout_zero_always_flags.
 Theorem flag_without_cut_window_refuted :
   exists clk step T ws,
     ClockOK clk step /\ 0 < T /\
-    let o := run_parallel clk step T ws in
+    let o := run_parallel FlagOnExhaustion clk step T ws in
     timed_out o = true /\ killed o = all_false ws /\ shared o = flat_map all_blocks ws.
 Proof.
   exists (fun i => 200010 * Z.of_nat i), 200000, 1000000,
@@ -167,16 +167,91 @@ Print Assumptions flag_without_cut_window_refuted.
 (* below the threshold the timeout is ignored: for every bound there is a kernel shorter than the
    threshold whose search takes longer than timeout + bound, and no flag is raised *)
 Theorem sequential_untimed_refuted :
-  forall bound, 0 <= bound ->
+  forall rule bound, 0 <= bound ->
     exists klen clk step T ws seq_work,
       klen < 50 /\ 0 <= T /\
-      let '(flag, wall, res) := analyse 50 klen clk step T ws seq_work in
+      let '(flag, wall, res) := analyse rule 50 klen clk step T ws seq_work in
       flag = false /\ T + bound < wall.
 Proof.
-  intros bound Hb. exists 49, clk_us, 200000, 1, [done_worker], (bound + 2).
+  intros rule bound Hb. exists 49, clk_us, 200000, 1, [done_worker], (bound + 2).
   split; [lia|]. split; [lia|]. unfold analyse. change (50 <=? 49) with false. cbv iota. split; [reflexivity|lia].
 Qed.
 Print Assumptions sequential_untimed_refuted.
+
+(* ---------------------------------------------------------------- the repaired rule (FlagOnKill) *)
+(* patches/C19-fix-flag-only-when-a-worker-is-killed.diff: self.timed_out = True moves inside
+   `if p.is_alive():`.  For this rule the property's "warning iff the search was cut short" holds
+   without edge cases. *)
+
+(* on every exit of the state machine the flag says exactly whether some worker was killed *)
+Theorem flag_iff_some_worker_killed :
+  forall clk step T ws,
+    let o := run_parallel FlagOnKill clk step T ws in
+    timed_out o = existsb (fun b : bool => b) (killed o).
+Proof. exact flag_is_kill_lemma. Qed.
+Print Assumptions flag_iff_some_worker_killed.
+
+(* no flag => nobody was killed and the shared list is complete *)
+Theorem no_flag_means_complete :
+  forall clk step T ws,
+    let o := run_parallel FlagOnKill clk step T ws in
+    how o <> Hangs -> how o <> OutOfFuel -> timed_out o = false ->
+    killed o = all_false ws /\ shared o = flat_map all_blocks ws.
+Proof. exact no_flag_complete_lemma. Qed.
+Print Assumptions no_flag_means_complete.
+
+(* under either rule: if nobody had to be killed the list is complete *)
+Theorem nobody_killed_means_complete :
+  forall rule clk step T ws,
+    let o := run_parallel rule clk step T ws in
+    how o <> Hangs -> how o <> OutOfFuel -> killed o = all_false ws ->
+    shared o = flat_map all_blocks ws.
+Proof. exact nobody_killed_complete_lemma. Qed.
+Print Assumptions nobody_killed_means_complete.
+
+(* the flag is set exactly when the loop ran into its else: branch and found a live worker there *)
+Theorem flag_on_kill_iff_deadline_with_live_worker :
+  forall clk step T ws, ClockOK clk step ->
+    let o := run_parallel FlagOnKill clk step T ws in
+    timed_out o = true <-> how o = ExitDeadline /\ any_alive ws (clk (exit_poll o)) = true.
+Proof. exact flag_on_kill_iff_lemma. Qed.
+Print Assumptions flag_on_kill_iff_deadline_with_live_worker.
+
+(* every worker finished (no live worker at the exit poll) => no flag, complete result: the
+   statements refuted for the shipped rule hold for the repaired one, for every clock *)
+Theorem every_worker_finished_no_flag :
+  forall clk step T ws,
+    let o := run_parallel FlagOnKill clk step T ws in
+    how o <> Hangs -> how o <> OutOfFuel ->
+    any_alive ws (clk (exit_poll o)) = false ->
+    timed_out o = false /\ killed o = all_false ws /\ shared o = flat_map all_blocks ws.
+Proof.
+  intros clk step T ws o H1 H2 A.
+  assert (F : timed_out o = false).
+  { subst o. revert H1 H2 A. unfold run_parallel. destruct (T =? -1).
+    - destruct (forallb terminates ws); simpl; auto.
+    - pose proof (poll_spec FlagOnKill clk T ws (fuel_for T step) 1%nat) as P. unfold poll_post in P.
+      destruct P as (_ & _ & P).
+      destruct (how (poll FlagOnKill (fuel_for T step) clk T ws 1)) eqn:E; try contradiction; try congruence; intros _ _ A.
+      + destruct P as (_ & _ & F & _). exact F.
+      + destruct P as (_ & F & _). rewrite F. simpl. exact A. }
+  split; [exact F|]. apply no_flag_complete_lemma; assumption.
+Qed.
+Print Assumptions every_worker_finished_no_flag.
+
+(* timeout 0 no longer flags a finished search *)
+Theorem timeout_zero_flags_only_live_workers :
+  forall clk step ws, clk 0%nat < clk 1%nat ->
+    timed_out (run_parallel FlagOnKill clk step 0 ws) = any_alive ws (clk 1%nat).
+Proof. exact timeout_zero_kill_lemma. Qed.
+Print Assumptions timeout_zero_flags_only_live_workers.
+
+(* the two witnesses that refute the shipped rule, re-run under the repaired rule: no flag *)
+Example flag_without_cut_repaired :
+  timed_out (run_parallel FlagOnKill clk_us 200000 0 [done_worker]) = false /\
+  timed_out (run_parallel FlagOnKill (fun i => 200010 * Z.of_nat i) 200000 1000000
+               [mkworker [(100000, [[(1, 2); (1001, 3)]])] (Some 900000)]) = false.
+Proof. vm_compute. split; reflexivity. Qed.
 
 (* ---------------------------------------------------------------- non-vacuity *)
 Definition slow_worker : worker :=
@@ -184,10 +259,16 @@ Definition slow_worker : worker :=
 
 (* a run that is cut: timeout 1 s, the slow worker is killed after its first block *)
 Example cut_run :
-  let o := run_parallel (fun i => 200010 * Z.of_nat i) 200000 1000000 [done_worker; slow_worker] in
+  let o := run_parallel FlagOnExhaustion (fun i => 200010 * Z.of_nat i) 200000 1000000 [done_worker; slow_worker] in
   how o = ExitDeadline /\ exit_poll o = 5%nat /\ timed_out o = true /\ killed o = [false; true] /\
   joined o = [true; true] /\
   shared o = [[[(1, 2); (1001, 3)]]; [[(1, 2); (1001, 3)]]].
+Proof. vm_compute. repeat split; reflexivity. Qed.
+
+(* the same cut run under the repaired rule: same kills, same list, flag set because of the kill *)
+Example cut_run_repaired :
+  let o := run_parallel FlagOnKill (fun i => 200010 * Z.of_nat i) 200000 1000000 [done_worker; slow_worker] in
+  how o = ExitDeadline /\ timed_out o = true /\ killed o = [false; true].
 Proof. vm_compute. repeat split; reflexivity. Qed.
 
 Example clock_ok_example : ClockOK (fun i => 200010 * Z.of_nat i) 200000.
